@@ -23,6 +23,8 @@ def is_met(arg, env):
     argv = env.get('argv', ['xdsim'])
     if arg.startswith('-'):
         return arg in argv
+    if arg.startswith(('module:', 'env:')) and arg.count(':') != 1:
+        return 'malformed'
     if arg.startswith('module:'):
         return arg[7:] in env.get('modules', ['os', 'sys', 'json'])
     if arg.startswith('env:'):
